@@ -16,7 +16,9 @@ EXTENDS Naturals, Sequences, FiniteSets, TLC
 Backends == {"atlas", "cms_aod", "cms_miniaod"}
 \* two_dirs: sibling directories; nested_dir: the second file lies in a sub-directory of the first
 \* file's directory; nested_rev: the other way round - none of these share one directory
-FilesCfg == {"one", "two_same_dir", "three_same_dir", "two_dirs", "nested_dir", "nested_rev", "one_missing", "none"}
+\* repeat_aba / repeat_aa: the caller names a file more than once (f1, f2, f1 / f1, f1): every mention is an input, in order
+FilesCfg == {"one", "two_same_dir", "three_same_dir", "two_dirs", "nested_dir", "nested_rev", "one_missing", "none",
+             "repeat_aba", "repeat_aa"}
 NotOneDir == {"two_dirs", "nested_dir", "nested_rev"}
 \* real_runner: the container is the namespace sandbox of the C16 check - the package's own runner.sh runs, unmodified, on
 \* the volumes and with the command docker.run was given (machines M4 and M5 composed end to end)
@@ -37,8 +39,11 @@ DefaultImage(b) == "vp/dataset-image:tag1"
 MdImage == "vp/from-metadata:1"
 CacheMounts(b) == IF b = "atlas" THEN {"/xaod_calibration_cache"} ELSE {}
 
-NFiles(f) == CASE f = "one" -> 1 [] f = "two_same_dir" -> 2 [] f = "three_same_dir" -> 3
-               [] f \in NotOneDir -> 2 [] f = "one_missing" -> 2 [] f = "none" -> 0
+\* which of the three files the caller names, in the order given
+FileIdx(f) == CASE f = "one" -> <<1>> [] f = "two_same_dir" -> <<1, 2>> [] f = "three_same_dir" -> <<1, 2, 3>>
+                [] f \in NotOneDir -> <<1, 2>> [] f = "one_missing" -> <<1, 2>> [] f = "none" -> <<>>
+                [] f = "repeat_aba" -> <<1, 2, 1>> [] f = "repeat_aa" -> <<1, 1>>
+NFiles(f) == Len(FileIdx(f))
 FileNames == <<"f1.root", "f2.root", "f3.root">>
 
 \* where the scenario ends: which step raises (or "done")
@@ -58,7 +63,7 @@ Expected(sc) ==
              [] OTHER -> "any",
    started |-> Ends(sc) \in {"docker", "extract", "done"},       \* was a container started at all
    image |-> IF sc.md # "absent" THEN MdImage ELSE DefaultImage(sc.backend),
-   filelist |-> [i \in 1..NFiles(sc.files) |-> "/data/" \o FileNames[i]],
+   filelist |-> [i \in 1..NFiles(sc.files) |-> "/data/" \o FileNames[FileIdx(sc.files)[i]]],
    cache |-> CacheMounts(sc.backend),
    returns |-> Ends(sc) = "done"]
 =============================================================================
